@@ -14,30 +14,26 @@ namespace Rivaas.C01
 open Rivaas.Route Rivaas.Radix Rivaas.Match Rivaas.MatchL Rivaas.RadixL
 
 /-- **C01, equality form.** For every script of the vocabulary, every constraint table and every
-request whose path starts with `/`: unless the request falls into one of the recorded classes
-(`shadow`: K01b, `cfall`: K01f — `overwrite`, K01c, is covered by `cfall`; `names`, K01a, was repaired),
-what the tree engine does is exactly the reference outcome: the route the declarative matcher selects
-(static over parameter over wildcard, segment-wise, constraints part of matching, last registration
-among equals) runs and reads its own bindings, or the answer is 405 with exactly the matching methods,
-or 404 / the NoRoute handler. -/
+request whose path starts with `/`: unless the route the reference selects (for the request method or, for
+the 405 answer, for one of the seven probed methods) was replaced by a later registration of exactly its
+shape (`overwrite`, K01c — the one recorded class left; `names` K01a, `shadow` K01b and `cfall` K01f were
+repaired), what the tree engine does is exactly the reference outcome: the route the declarative matcher
+selects (static over parameter over wildcard, segment-wise, with backtracking, constraints part of matching,
+last registration among equals) runs and reads its own bindings, or the answer is 405 with exactly the
+matching methods, or 404 / the NoRoute handler. -/
 theorem dispatch_eq_ref_partial (sat : Nat → Bytes → Bool) (noRoute : Bool) (script : List Reg) (R : List Route)
     (hR : specRoutes script = some R) (hN : normal R = true) (hstd : ∀ g ∈ script, g.method ∈ stdMethods)
     (req : Req) (hp : req.path.head? = some '/')
-    (hS : dShadow R req (cutAny req.path) = false)
-    (hC : dCfall sat R req (cutAny req.path) = false) :
+    (hOw : dReplaced sat R req (cutAny req.path) = false) :
     serve sat (build noRoute script) req = refMatch sat noRoute R req (cutAny req.path) := by
-  have hguard : ∀ m ∈ methodsOf req, dShadow1 R m (cutAny req.path) = false ∧
-      dCfall1 sat R m (cutAny req.path) = false := by
+  have hguard : ∀ m ∈ methodsOf req, dReplaced1 sat R m (cutAny req.path) = false := by
     intro m hm
-    refine ⟨?_, ?_⟩
-    · exact Bool.eq_false_iff.mpr ((List.any_eq_false.mp hS) m hm)
-    · exact Bool.eq_false_iff.mpr ((List.any_eq_false.mp hC) m hm)
+    exact Bool.eq_false_iff.mpr ((List.any_eq_false.mp hOw) m hm)
   have hlook : ∀ m ∈ methodsOf req, lookupM sat (build noRoute script) m req.path =
       (refRoute sat R m (cutAny req.path)).map fun r =>
         (leafOf r, pushAll Ctx.fresh ((routeMatch sat r (cutAny req.path)).getD [])) := by
     intro m hm
-    obtain ⟨h1, h3⟩ := hguard m hm
-    exact lemma_lookupM sat noRoute script R hR hN hstd m req.path hp h1 h3
+    exact lemma_lookupM sat noRoute script R hR hN hstd m req.path hp (hguard m hm)
   rw [lemma_serve_lookup, hlook req.method (lemma_mem_methodsOf req _ (Or.inl rfl))]
   unfold refMatch
   cases href : refRoute sat R req.method (cutAny req.path) with
@@ -101,18 +97,15 @@ theorem dispatch_eq_ref_partial (sat : Nat → Bytes → Bool) (noRoute : Bool) 
 
 
 /-- **Every deviation is classified** (the form DESIGN.md §2.4 uses): if the tree engine does not
-produce the reference outcome, the request is in one of the recorded classes. -/
+produce the reference outcome, the request is in the one recorded class. -/
 theorem deviation_classified (sat : Nat → Bytes → Bool) (noRoute : Bool) (script : List Reg) (R : List Route)
     (hR : specRoutes script = some R) (hN : normal R = true) (hstd : ∀ g ∈ script, g.method ∈ stdMethods)
     (req : Req) (hp : req.path.head? = some '/')
     (hdev : serve sat (build noRoute script) req ≠ refMatch sat noRoute R req (cutAny req.path)) :
-    dShadow R req (cutAny req.path) = true ∨ dCfall sat R req (cutAny req.path) = true := by
-  cases hS : dShadow R req (cutAny req.path) with
-  | true => left; rfl
-  | false =>
-    cases hC : dCfall sat R req (cutAny req.path) with
-    | true => right; rfl
-    | false => exact absurd (dispatch_eq_ref_partial sat noRoute script R hR hN hstd req hp hS hC) hdev
+    dReplaced sat R req (cutAny req.path) = true := by
+  cases hOw : dReplaced sat R req (cutAny req.path) with
+  | true => rfl
+  | false => exact absurd (dispatch_eq_ref_partial sat noRoute script R hR hN hstd req hp hOw) hdev
 
 /-- the class token the driver prints is `-` only where the equality holds -/
 theorem classify_dash (sat : Nat → Bytes → Bool) (noRoute : Bool) (script : List Reg) (R : List Route)
@@ -121,20 +114,16 @@ theorem classify_dash (sat : Nat → Bytes → Bool) (noRoute : Bool) (script : 
     (hcls : classify sat R req (cutAny req.path) = "-") :
     serve sat (build noRoute script) req = refMatch sat noRoute R req (cutAny req.path) := by
   unfold classify at hcls
-  cases hS : dShadow R req (cutAny req.path) with
-  | true => cases hO : dOverwrite R req (cutAny req.path) <;> cases hC : dCfall sat R req (cutAny req.path) <;> simp [hO, hS, hC] at hcls
-  | false =>
-    cases hC : dCfall sat R req (cutAny req.path) with
-    | true => cases hO : dOverwrite R req (cutAny req.path) <;> simp [hO, hS, hC] at hcls
-    | false => exact dispatch_eq_ref_partial sat noRoute script R hR hN hstd req hp hS hC
+  cases hOw : dReplaced sat R req (cutAny req.path) with
+  | true => simp [hOw] at hcls
+  | false => exact dispatch_eq_ref_partial sat noRoute script R hR hN hstd req hp hOw
 
-/-- **Allow is exact**: under the guards a 405 lists exactly (sorted) the standard methods that have a
+/-- **Allow is exact**: outside the class a 405 lists exactly (sorted) the standard methods that have a
 matching route, and a 405 is answered exactly when the request method has none but some method has. -/
 theorem allow_exact (sat : Nat → Bytes → Bool) (noRoute : Bool) (script : List Reg) (R : List Route)
     (hR : specRoutes script = some R) (hN : normal R = true) (hstd : ∀ g ∈ script, g.method ∈ stdMethods)
     (req : Req) (hp : req.path.head? = some '/')
-    (hS : dShadow R req (cutAny req.path) = false)
-    (hC : dCfall sat R req (cutAny req.path) = false)
+    (hOw : dReplaced sat R req (cutAny req.path) = false)
     (hnone : cands sat R req.method (cutAny req.path) = []) :
     (serve sat (build noRoute script) req).ran = none ∧
     ((allowedSet sat R (cutAny req.path) ≠ [] →
@@ -143,7 +132,7 @@ theorem allow_exact (sat : Nat → Bytes → Bool) (noRoute : Bool) (script : Li
      (allowedSet sat R (cutAny req.path) = [] →
         (serve sat (build noRoute script) req).status = 404 ∧
         (serve sat (build noRoute script) req).noRoute = noRoute)) := by
-  rw [dispatch_eq_ref_partial sat noRoute script R hR hN hstd req hp hS hC]
+  rw [dispatch_eq_ref_partial sat noRoute script R hR hN hstd req hp hOw]
   have href : refRoute sat R req.method (cutAny req.path) = none := by unfold refRoute; rw [hnone]; rfl
   unfold refMatch
   simp only [href]
@@ -158,16 +147,20 @@ theorem allow_exact (sat : Nat → Bytes → Bool) (noRoute : Bool) (script : Li
     cases noRoute <;> simp
 
 
-/-- **Soundness, without any guard**: whenever a route handler runs, it belongs to a registered route of
-the request method whose pattern matches the path segment-wise — for every script of the vocabulary,
-shadowing, name clashes and overwritten leaves included. -/
+/-- **Soundness, without any guard** (pattern, constraints and bindings): whenever a route handler runs, it
+belongs to a registered route of the request method that matches the path segment-wise with its constraints
+satisfied, and the handler reads — through `AllParams` and through `Param(name)` — exactly the bindings of its
+own pattern (for a wildcard, the remaining path). For every script of the vocabulary, overwritten leaves
+included. -/
 theorem lookup_sound (sat : Nat → Bytes → Bool) (noRoute : Bool) (script : List Reg) (R : List Route)
     (hR : specRoutes script = some R) (hN : normal R = true)
     (req : Req) (hp : req.path.head? = some '/') (rid : Nat)
     (h : (serve sat (build noRoute script) req).ran = some rid) :
     ∃ r ∈ R, r.rid = rid ∧ r.method = req.method ∧
-      (matchPat (cutAny req.path).trail r.pat (cutAny req.path).segs).isSome = true := by
-  rw [lemma_serve_lookup] at h
+      ∃ b, routeMatch sat r (cutAny req.path) = some b ∧
+        (serve sat (build noRoute script) req).params = SMap.ofList b ∧
+        (serve sat (build noRoute script) req).lookups = lookupAsk b req.ask := by
+  rw [lemma_serve_lookup] at h ⊢
   cases hl : lookupM sat (build noRoute script) req.method req.path with
   | none =>
     rw [hl] at h
@@ -179,29 +172,64 @@ theorem lookup_sound (sat : Nat → Bytes → Bool) (noRoute : Bool) (script : L
     obtain ⟨lf, ctx⟩ := res
     rw [hl] at h
     simp only [served, Option.some.injEq] at h
+    have hl0 := hl
     unfold lookupM at hl
     by_cases hm : req.method ∈ stdMethods
     · rw [treeOf_build noRoute script R hR req.method hm] at hl
       by_cases hf : R.filter (·.method = req.method) = []
       · simp [hf] at hl
       · simp only [hf, if_false, Option.bind_some] at hl
-        obtain ⟨r, hr, hrm, hlf, hmatch⟩ := getRoute_sound sat R (lemma_normalR R hN) req.method req.path hp lf ctx hl
-        exact ⟨r, hr, by rw [← h, hlf]; rfl, hrm, hmatch⟩
+        obtain ⟨r, hr, hrm, hlf, b, hb, hctx⟩ := getRoute_sound sat R (lemma_normalR R hN) req.method req.path hp lf ctx hl
+        refine ⟨r, hr, by rw [← h, hlf]; rfl, hrm, b, hb, ?_, ?_⟩
+        · simp only [served, hctx, all_pushAll]
+        · have hmb : matchPat (cutAny req.path).trail r.pat (cutAny req.path).segs = some b := by
+            unfold routeMatch at hb
+            cases hmm : matchPat (cutAny req.path).trail r.pat (cutAny req.path).segs with
+            | none => simp [hmm] at hb
+            | some b' =>
+              simp only [hmm] at hb
+              split at hb
+              · injection hb with hb; rw [hb]
+              · cases hb
+          have hn := (lemma_normalR R hN r hr).1
+          have hkeys : distinct (b.map (·.1)) = true := by rw [matchPat_keys _ _ _ _ hmb]; exact hn.dist
+          simp only [served, hctx]
+          unfold lookupAsk
+          apply List.map_congr_left
+          intro n _
+          rw [param_pushAll n b hkeys]
     · have : treeOf (build noRoute script) req.method = none := by simp [treeOf, hm]
       rw [this] at hl
       simp at hl
 
-/-- **Priority, without any guard**: whenever a route handler runs, no registered route of the request
-method whose pattern matches the path beats it segment-wise (static over parameter over wildcard at the
-first differing segment). Shadowing can make the engine answer 404, it never makes it prefer a weaker
-pattern. -/
+/-- **No handler without a match, without any guard**: when no route registered for the request method
+matches the path (constraints included), no route handler runs. -/
+theorem no_match_no_handler (sat : Nat → Bytes → Bool) (noRoute : Bool) (script : List Reg) (R : List Route)
+    (hR : specRoutes script = some R) (hN : normal R = true)
+    (req : Req) (hp : req.path.head? = some '/')
+    (hnone : cands sat R req.method (cutAny req.path) = []) :
+    (serve sat (build noRoute script) req).ran = none := by
+  cases hran : (serve sat (build noRoute script) req).ran with
+  | none => rfl
+  | some rid =>
+    exfalso
+    obtain ⟨r, hr, _, hrm, b, hb, _⟩ := lookup_sound sat noRoute script R hR hN req hp rid hran
+    have : r ∈ cands sat R req.method (cutAny req.path) := by
+      simp only [cands, List.mem_filter, decide_eq_true_eq]
+      exact ⟨hr, hrm, by rw [hb]; rfl⟩
+    rw [hnone] at this; simp at this
+
+/-- **Priority, without any guard**: whenever a route handler runs, no registered route of the request method
+that matches the path with its constraints satisfied — and that was not replaced by a later registration of
+exactly its shape — beats it segment-wise (static over parameter over wildcard at the first differing
+segment). -/
 theorem lookup_priority (sat : Nat → Bytes → Bool) (noRoute : Bool) (script : List Reg) (R : List Route)
     (hR : specRoutes script = some R) (hN : normal R = true)
     (req : Req) (hp : req.path.head? = some '/') (rid : Nat)
     (h : (serve sat (build noRoute script) req).ran = some rid) :
     ∃ r ∈ R, r.rid = rid ∧ r.method = req.method ∧
-      ∀ r' ∈ R, r'.method = req.method →
-        (matchPat (cutAny req.path).trail r'.pat (cutAny req.path).segs).isSome = true →
+      ∀ r' ∈ R, r'.method = req.method → (routeMatch sat r' (cutAny req.path)).isSome = true →
+        ((laterThan r' R).any fun r1 => r1.method = req.method && shapeEq r1.pat r'.pat) = false →
         better r'.pat r.pat = false := by
   rw [lemma_serve_lookup] at h
   cases hl : lookupM sat (build noRoute script) req.method req.path with
@@ -227,15 +255,52 @@ theorem lookup_priority (sat : Nat → Bytes → Bool) (noRoute : Bool) (script 
       rw [this] at hl
       simp at hl
 
-/-- **`RouteExists` is exact**: under the guards, `RouteExists(method, path)` is true exactly when some
+/-- **Completeness with priority**: outside the class, a route runs whenever one matches, and it is not beaten
+segment-wise (static over parameter over wildcard at the first differing segment) by any registered route of the
+request method that matches the path with its constraints satisfied. -/
+theorem lookup_best (sat : Nat → Bytes → Bool) (noRoute : Bool) (script : List Reg) (R : List Route)
+    (hR : specRoutes script = some R) (hN : normal R = true) (hstd : ∀ g ∈ script, g.method ∈ stdMethods)
+    (req : Req) (hp : req.path.head? = some '/')
+    (hOw : dReplaced sat R req (cutAny req.path) = false)
+    (hsome : cands sat R req.method (cutAny req.path) ≠ []) :
+    ∃ r ∈ cands sat R req.method (cutAny req.path), (serve sat (build noRoute script) req).ran = some r.rid ∧
+      ∀ r' ∈ cands sat R req.method (cutAny req.path), better r'.pat r.pat = false := by
+  rw [dispatch_eq_ref_partial sat noRoute script R hR hN hstd req hp hOw]
+  have hisSome : (refRoute sat R req.method (cutAny req.path)).isSome = true := by
+    unfold refRoute
+    rw [lemma_pick_isSome]
+    cases hcs : cands sat R req.method (cutAny req.path) with
+    | nil => exact absurd hcs hsome
+    | cons a rest => rfl
+  cases href : refRoute sat R req.method (cutAny req.path) with
+  | none => rw [href] at hisSome; simp at hisSome
+  | some ρ =>
+    have hρc : ρ ∈ cands sat R req.method (cutAny req.path) := lemma_pick_mem _ _ href
+    refine ⟨ρ, hρc, by simp [refMatch, href], ?_⟩
+    have hmatchall : ∀ c ∈ cands sat R req.method (cutAny req.path),
+        (matchPat (cutAny req.path).trail c.pat (cutAny req.path).segs).isSome = true := by
+      intro c hcm
+      have hcc := (List.mem_filter.mp hcm).2
+      simp only [decide_eq_true_eq] at hcc
+      exact routeMatch_isSome_match sat c _ hcc.2
+    rcases pick_nec _ _ _ none ρ hmatchall (by intro c hcc; cases hcc) href with ⟨h, _⟩ | ⟨l1, l2, hl12, _, h1, h2⟩
+    · cases h
+    · intro c hcm
+      rw [hl12] at hcm
+      simp only [List.mem_append, List.mem_cons] at hcm
+      rcases hcm with hcm | rfl | hcm
+      · exact h1 c hcm
+      · exact better_irrefl _
+      · exact better_asymm _ _ (h2 c hcm)
+
+/-- **`RouteExists` is exact**: outside the class, `RouteExists(method, path)` is true exactly when some
 registered route of the method matches the path (constraints included). -/
 theorem routeExists_exact (sat : Nat → Bytes → Bool) (noRoute : Bool) (script : List Reg) (R : List Route)
     (hR : specRoutes script = some R) (hN : normal R = true) (hstd : ∀ g ∈ script, g.method ∈ stdMethods)
     (m path : Bytes) (hm : m ∈ stdMethods) (hp : path.head? = some '/')
-    (hS : dShadow1 R m (cutAny path) = false)
-    (hC : dCfall1 sat R m (cutAny path) = false) :
+    (hOw : dReplaced1 sat R m (cutAny path) = false) :
     routeExists sat (build noRoute script) m path = !(cands sat R m (cutAny path)).isEmpty := by
-  have hlook := lemma_lookupM sat noRoute script R hR hN hstd m path hp hS hC
+  have hlook := lemma_lookupM sat noRoute script R hR hN hstd m path hp hOw
   have hT := treeOf_build noRoute script R hR m hm
   rw [treeOf_eq _ _ hm] at hT
   unfold getT at hT
@@ -407,15 +472,14 @@ theorem ref_meets_oracle (sat : Nat → Bytes → Bool) (noRoute : Bool) (R : Li
     · simp only [ha, if_false]
       cases noRoute <;> simp
 
-/-- **C01, oracle form**: under the guards the observation of the tree engine satisfies the relational
+/-- **C01, oracle form**: outside the class the observation of the tree engine satisfies the relational
 oracle (`specOK`) that the driver evaluates on the implementation's observation. -/
 theorem C01_meets_oracle (sat : Nat → Bytes → Bool) (noRoute : Bool) (script : List Reg) (R : List Route)
     (hR : specRoutes script = some R) (hN : normal R = true) (hstd : ∀ g ∈ script, g.method ∈ stdMethods)
     (req : Req) (hp : req.path.head? = some '/')
-    (hS : dShadow R req (cutAny req.path) = false)
-    (hC : dCfall sat R req (cutAny req.path) = false) :
+    (hOw : dReplaced sat R req (cutAny req.path) = false) :
     specOK sat R req (cutAny req.path) (serve sat (build noRoute script) req) = true := by
-  rw [dispatch_eq_ref_partial sat noRoute script R hR hN hstd req hp hS hC]
+  rw [dispatch_eq_ref_partial sat noRoute script R hR hN hstd req hp hOw]
   exact ref_meets_oracle sat noRoute R hN req _
 
 
@@ -435,21 +499,25 @@ def k01aReq : Req := ⟨G, B "/a/1/c", [B "x", B "y"]⟩
 
 theorem K01a_asIs_witness : ∃ R, specRoutes k01aScript = some R ∧ normal R = true ∧
     dNames R k01aReq (cutAny k01aReq.path) = true ∧
-    (let c := (getRouteGen false true anySat ((treeOf (build false k01aScript) G).getD Tree.empty) k01aReq.path Ctx.fresh).2
+    (let c := (getRouteGen false true true anySat ((treeOf (build false k01aScript) G).getD Tree.empty) k01aReq.path Ctx.fresh).2
      (c.param (B "x"), c.param (B "y")) = (B "1", [])) ∧
     (serve anySat (build false k01aScript) k01aReq).lookups = [(B "x", []), (B "y", B "1")] ∧
     serve anySat (build false k01aScript) k01aReq = refMatch anySat false R k01aReq (cutAny k01aReq.path) :=
   ⟨_, rfl, by decide, by decide, by decide, by decide, by decide⟩
 
-/-- K01b — a static edge shadows the parameter sibling, the descent does not backtrack -/
+/-- K01b (repaired) — as shipped, a static edge shadowed the parameter sibling and the descent did not
+backtrack: `/users/admin/posts` was answered 404 although `/users/:id/posts` matches; now the first route
+runs with `id=admin`, exactly the reference outcome -/
 def k01bScript : List Reg := [reg "GET" "/users/:id/posts", reg "GET" "/users/admin/:x/y"]
 def k01bReq : Req := ⟨G, B "/users/admin/posts", [B "id"]⟩
 
-theorem K01b_witness : ∃ R, specRoutes k01bScript = some R ∧ normal R = true ∧
-    (serve anySat (build false k01bScript) k01bReq).status = 404 ∧
-    (refMatch anySat false R k01bReq (cutAny k01bReq.path)).ran = some 0 ∧
-    classify anySat R k01bReq (cutAny k01bReq.path) = "shadow" :=
-  ⟨_, rfl, by decide, by decide, by decide, by decide⟩
+theorem K01b_asIs_witness : ∃ R, specRoutes k01bScript = some R ∧ normal R = true ∧
+    dShadow R k01bReq (cutAny k01bReq.path) = true ∧
+    (getRouteGen false false true anySat ((treeOf (build false k01bScript) G).getD Tree.empty) k01bReq.path Ctx.fresh).1 = none ∧
+    (serve anySat (build false k01bScript) k01bReq).ran = some 0 ∧
+    (serve anySat (build false k01bScript) k01bReq).lookups = [(B "id", B "admin")] ∧
+    serve anySat (build false k01bScript) k01bReq = refMatch anySat false R k01bReq (cutAny k01bReq.path) :=
+  ⟨_, rfl, by decide, by decide, by decide, by decide, by decide, by decide⟩
 
 /-- K01c — routes of one shape overwrite each other (one leaf per shape holds the last registration):
 constraint 0 accepts only digits, constraint 1 only letters; `/u/123` is answered 404 although `/u/:id` matches -/
@@ -466,16 +534,19 @@ theorem K01c_witness : ∃ R, specRoutes k01cScript = some R ∧ normal R = true
     classify k01cSat R k01cReq1 (cutAny k01cReq1.path) = "overwrite" :=
   ⟨_, rfl, by decide, by decide, by decide, by decide, by decide, by decide⟩
 
-/-- K01f — constraints are checked only at the leaf the descent reaches -/
+/-- K01f (repaired) — as shipped, constraints were checked only at the one leaf the descent reached:
+`/u/abc` was answered 404 although `/u/*` matches; now the wildcard route runs, exactly the reference outcome -/
 def k01fSat : Nat → Bytes → Bool := fun _ v => v == B "12"
 def k01fScript : List Reg := [reg "GET" "/u/:id" [(B "id", 0)], reg "GET" "/u/*"]
 def k01fReq : Req := ⟨G, B "/u/abc", [B "filepath"]⟩
 
-theorem K01f_witness : ∃ R, specRoutes k01fScript = some R ∧ normal R = true ∧
-    (serve k01fSat (build false k01fScript) k01fReq).status = 404 ∧
-    (refMatch k01fSat false R k01fReq (cutAny k01fReq.path)).ran = some 1 ∧
-    classify k01fSat R k01fReq (cutAny k01fReq.path) = "cfall" :=
-  ⟨_, rfl, by decide, by decide, by decide, by decide⟩
+theorem K01f_asIs_witness : ∃ R, specRoutes k01fScript = some R ∧ normal R = true ∧
+    dCfall k01fSat R k01fReq (cutAny k01fReq.path) = true ∧
+    (getRouteGen false false true k01fSat ((treeOf (build false k01fScript) G).getD Tree.empty) k01fReq.path Ctx.fresh).1 = none ∧
+    (serve k01fSat (build false k01fScript) k01fReq).ran = some 1 ∧
+    (serve k01fSat (build false k01fScript) k01fReq).lookups = [(B "filepath", B "abc")] ∧
+    serve k01fSat (build false k01fScript) k01fReq = refMatch k01fSat false R k01fReq (cutAny k01fReq.path) :=
+  ⟨_, rfl, by decide, by decide, by decide, by decide, by decide, by decide⟩
 
 /-- K01d (repaired in e1ada5b) — as shipped, the parameter in a wildcard prefix was a literal edge -/
 def k01dScript : List Reg := [reg "GET" "/users/:id/files/*"]
@@ -492,7 +563,7 @@ def k01eSat : Nat → Bytes → Bool := fun _ v => v == B "12"
 def k01eScript : List Reg := [reg "GET" "/f/:id/*" [(B "id", 0)]]
 
 theorem K01e_asIs_witness :
-    ((getRouteGen true false k01eSat ((treeOf (build false k01eScript) G).getD Tree.empty) (B "/f/abc/x") Ctx.fresh).1.map (·.rid)) = some 0 ∧
+    ((getRouteGen true false false k01eSat ((treeOf (build false k01eScript) G).getD Tree.empty) (B "/f/abc/x") Ctx.fresh).1.map (·.rid)) = some 0 ∧
     (getRoute k01eSat ((treeOf (build false k01eScript) G).getD Tree.empty) (B "/f/abc/x") Ctx.fresh).1 = none ∧
     ((getRoute k01eSat ((treeOf (build false k01eScript) G).getD Tree.empty) (B "/f/12/x") Ctx.fresh).1.map (·.rid)) = some 0 :=
   ⟨by decide, by decide, by decide⟩
